@@ -199,3 +199,26 @@ def supplied_from_yaml(y):
                 if m:
                     names.add(m.group(2))
     return names
+
+
+def is_flattened_name(name, ranks):
+    """True if `name` is the lower-cased name of a flattened rank: a concatenation of >= 2 declared rank names, each
+    optionally followed by partition-level digits (km, mk0, mk01, jkm)"""
+    up = name.upper()
+    rs = sorted({r.upper() for r in ranks}, key=len, reverse=True)
+
+    def seg(i, n):
+        if i == len(up):
+            return n >= 2
+        for r in rs:
+            if up.startswith(r, i):
+                j = i + len(r)
+                while True:
+                    if seg(j, n + 1):
+                        return True
+                    if j < len(up) and up[j].isdigit():
+                        j += 1
+                    else:
+                        break
+        return False
+    return name == name.lower() and seg(0, 0)
